@@ -748,7 +748,9 @@ class DLC(utils.EventEmitter):
                 raise InvalidArgumentError('write only accept bytes or strings')
 
         self.tx_buffer += data
-        self.drained.clear()
+        if self.tx_buffer:
+            # Nothing to wait for after an empty write on an empty buffer
+            self.drained.clear()
         self.process_tx()
 
     async def drain(self) -> None:
